@@ -1,6 +1,7 @@
 """C22 -- Theory solver verdicts depend only on the asserted literals (partial: the bound stacks of the LA model are restored exactly by backtracking)."""
 import os, re
 from vrun import Job, VERIF
+import checks.C26 as C26
 H = '''static void compare(void) {
   for (int v = 0; v < NVAR; v++) for (int k = 0; k < 2; k++) {
     struct vec_LABoundRef *s = k == 0 ? &h_lbs[v] : &h_ubs[v];
@@ -34,6 +35,11 @@ void harness(void) {
   OSMT_REACH("return");
 }
 '''
+def activation_job():
+    j = C26.ab_job(extra_defines=('C22_ACTIVATION',))
+    j.name = 'assertBound_activation.R'
+    j.proves = 'Simplex::assertBound raises the per-variable count of active bounds exactly when it accepts the bound (the pairing with boundDeactivated on retraction)'
+    return j
 def jobs(tier):
     steps = 5 if tier == 'quick' else 6
     return [Job('LRAModel_backtrack.R', 'src/tsolvers/lasolver/LRAModel.cc', 'opensmt::LRAModel::popBacktrackPoint', tier='R', header='contracts/C22/lramodel.h', harness=H, enforce=False,
@@ -42,7 +48,8 @@ def jobs(tier):
                 stubs=('opensmt::LABoundStore::operator[]', 'vec_LABoundRef__capacity__int', 'vec_int__capacity__int'), opaque=('opensmt::LABoundStore',),
                 defines=('C22_STEPS %d' % steps,), unwindset=('harness.1:%d' % (steps + 1),), default_unwind=9, min_obligations=5, object_bits=12, timeout=1800, weight=10,
                 bounded_note='every sequence of at most %d operations' % steps + ' (pushBacktrackPoint / pushBound / popBacktrackPoint) over 2 variables and 6 bounds of arbitrary kind, from the empty model',
-                proves='backtracking restores the bound stacks exactly: retracted bounds leave no trace, the others stay')]
+                proves='backtracking restores the bound stacks exactly: retracted bounds leave no trace, the others stay'),
+            activation_job()]
 def info(tier, results):
     return {'level': 'other', 'trusted_base': ['clang 14 AST', 'osmt2c lowering', 'CBMC 6.11'],
             'assumptions': ['LABoundStore::operator[] returns the bound (variable, kind) for a reference; std::vector<vec<LABoundRef>>::operator[] returns the per-variable stack (stubs of contracts/C22/lramodel.h)', 'vec<T> storage as typed pool blocks'],
